@@ -236,6 +236,7 @@ func c15traversal(x *runner.X) {
 	var runErr error
 	returned := false
 	overlap := false
+	appendingConsumer := t.Bool(0.5)
 	x.Sim(runner.SimOpts{Phase: "accum.Run", FaultsFlowing: false, Cfg: dsim.Config{MaxSteps: 400000, MaxSimTime: time.Hour}}, func() {
 		s := dsim.Active()
 		st := &c15stream{b: car.Bytes(), failAt: failAt, short: t.Bool(0.6)}
@@ -262,6 +263,12 @@ func c15traversal(x *runner.X) {
 				g.children = append(g.children, gotObj{c.Cid, c.Offset, c.SectionLength, c.ObjectData, append([]byte(nil), c.ObjectData...)})
 			}
 			got = append(got, g)
+			if parent != nil && appendingConsumer {
+				// what split-car does with its arguments: the family is children + parent, appended
+				// into whatever capacity the children slice has
+				family := append(children, *parent)
+				_ = family
+			}
 			switch consumer {
 			case 1:
 				for i := s.Tape().Intn(4); i > 0; i-- {
